@@ -47,9 +47,25 @@ func ScanPngHeader(r io.ReadSeeker) (header meta.ExifHeader, err error) {
 
 		switch chunkType {
 		case "eXIf":
-			offset, _ := r.Seek(0, io.SeekCurrent)
-
-			return meta.NewExifHeader(utils.BigEndian, 8, uint32(offset), length, imagetype.ImagePNG), nil
+			offset, err := r.Seek(0, io.SeekCurrent)
+			if err != nil {
+				return header, err
+			}
+			// The chunk data is a Tiff block: its header tells the byte order
+			// and where the first Ifd is.
+			if _, err = io.ReadFull(r, buf); err != nil {
+				return header, meta.ErrNoExif
+			}
+			byteOrder := utils.BinaryOrder(buf)
+			if byteOrder == utils.UnknownEndian {
+				return header, meta.ErrNoExif
+			}
+			firstIfdOffset := byteOrder.Uint32(buf[4:8])
+			// leave the reader at the start of the chunk data
+			if _, err = r.Seek(offset, io.SeekStart); err != nil {
+				return header, err
+			}
+			return meta.NewExifHeader(byteOrder, firstIfdOffset, uint32(offset), length, imagetype.ImagePNG), nil
 
 		default:
 			// Discard the chunk length + CRC.
